@@ -10,6 +10,23 @@ Local Open Scope Z_scope.
 Definition uri_host_is_unix (h : bytes) : bool :=
   uri_is_unix_host h || match h with c :: _ => c =? 47 | [] => false end.
 
+(* coap_host_is_unix_domain as the code reads it: host->s[0], s[1], s[2] are read only behind the
+   guard "host->length >= k" (k = 3), s[0] again behind "length >= 1"; a read at an index the
+   length-delimited host does not have is UOob (with k = 2 the host "%2" is read one byte past
+   its end: uri_host_is_unix_k2_overreads) *)
+Definition uri_UNIX_K : Z := 3.
+Definition uri_host_is_unix_chk (k : Z) (h : bytes) : uri_res bool :=
+  ulet a <- (if k <=? len h then
+               ulet c0 <- uri_rd h 0 ;;
+               if c0 =? 37 then
+                 ulet c1 <- uri_rd h 1 ;;
+                 if c1 =? 50 then ulet c2 <- uri_rd h 2 ;; UOk ((c2 =? 70) || (c2 =? 102))
+                 else UOk false
+               else UOk false
+             else UOk false) ;;
+  if (a : bool) then UOk true else
+  if 1 <=? len h then ulet c0 <- uri_rd h 0 ;; UOk (c0 =? 47) else UOk false.
+
 (* coap_replace_upper_lower *)
 Definition uri_lower (c : Z) : Z := if (65 <=? c) && (c <=? 90) then c + 32 else c.
 
@@ -24,8 +41,9 @@ Definition uri_scheme_default_port (sch : Z) : Z :=
   else if sch mod 2 =? 1 then 5684 else 5683.
 
 (* the Uri-Host / Uri-Port part; [dst] = what coap_print_ip_addr gives for the destination *)
-Definition uri_hostport_opts (u : uri_parts) (dst : option bytes) (create : bool) : list opt :=
-  if create && negb (uri_host_is_unix (up_host u)) then
+Definition uri_hostport_opts_ux (ux : bool) (u : uri_parts) (dst : option bytes) (create : bool)
+  : list opt :=
+  if create && negb ux then
     let host := up_host u in
     let hopt :=
       match dst with
@@ -43,9 +61,16 @@ Definition uri_hostport_opts (u : uri_parts) (dst : option bytes) (create : bool
     hopt ++ popt
   else [].
 
-Definition uri_into_optlist (u : uri_parts) (dst : option bytes) (create : bool)
+Definition uri_hostport_opts (u : uri_parts) (dst : option bytes) (create : bool) : list opt :=
+  uri_hostport_opts_ux (uri_host_is_unix (up_host u)) u dst create.
+
+Definition uri_into_optlist_k (k : Z) (u : uri_parts) (dst : option bytes) (create : bool)
            (chain : list opt) : uri_res (list opt) :=
-  let chain1 := chain ++ uri_hostport_opts u dst create in
+  (* if (create_port_host_opt && !coap_host_is_unix_domain(&uri->host)) *)
+  ulet ux <- (if create then uri_host_is_unix_chk k (up_host u) else UOk false) ;;
+  let chain1 := chain ++ uri_hostport_opts_ux ux u dst create in
   ulet c2 <- (if 0 <? len (up_path u) then uri_path_into_optlist (up_path u) 11 chain1
               else UOk chain1) ;;
   if 0 <? len (up_query u) then uri_query_into_optlist (up_query u) 15 c2 else UOk c2.
+
+Definition uri_into_optlist := uri_into_optlist_k uri_UNIX_K.
